@@ -82,6 +82,8 @@ pub mod extra {
                 let r = super::lemire_f32(a[0].parse().unwrap(), a[1].parse().unwrap(), a[2].parse::<u8>().unwrap() != 0, a[3].parse::<u8>().unwrap() != 0);
                 format!("{} {}", r.mant, r.exp)
             },
+            "max_digits_f64" => format!("{}", super::max_digits_f64(a[0].parse().unwrap())),
+            "max_digits_f32" => format!("{}", super::max_digits_f32(a[0].parse().unwrap())),
             _ => format!("UNKNOWN-KERNEL {}", kernel),
         }
     }
@@ -269,4 +271,20 @@ pub fn lemire_f32(mantissa: u64, exponent: i64, many_digits: bool, lossy: bool) 
         fraction: None,
     };
     lexical_parse_float::lemire::lemire::<f32>(&num, lossy)
+}
+
+/// Significant-digit cap of the big-integer slow path (C01/C05); None is reported as u64::MAX.
+#[inline(never)]
+pub fn max_digits_f64(radix: u32) -> u64 {
+    match lexical_parse_float::limits::f64_max_digits(radix) {
+        Some(n) => n as u64,
+        None => u64::MAX,
+    }
+}
+#[inline(never)]
+pub fn max_digits_f32(radix: u32) -> u64 {
+    match lexical_parse_float::limits::f32_max_digits(radix) {
+        Some(n) => n as u64,
+        None => u64::MAX,
+    }
 }
